@@ -40,6 +40,18 @@ func (c *ctx) count(quick, thorough int) int {
 
 var drivers = map[string]func(*ctx) error{}
 
+// inflight records the case about to be run in <out>/inflight.json; if the driver then dies or hangs inside
+// the code under test, bin/check reports that case as the replay. Removed when the driver ends normally.
+func (c *ctx) inflight(v any) {
+	if c.out == "" {
+		return
+	}
+	_ = os.MkdirAll(c.out, 0o755)
+	if b, err := json.Marshal(v); err == nil {
+		_ = os.WriteFile(filepath.Join(c.out, "inflight.json"), b, 0o644)
+	}
+}
+
 // corpusFiles lists *.json under corpus/<name>, sorted
 func (c *ctx) corpusFiles(name string) []string {
 	if c.corpus == "" {
@@ -87,4 +99,5 @@ func main() {
 		fmt.Fprintln(os.Stderr, "driver error:", err)
 		os.Exit(3)
 	}
+	_ = os.Remove(filepath.Join(c.out, "inflight.json"))
 }
